@@ -220,6 +220,17 @@ class World:
                 f = FuncVal(st, q, outer.module, None, [], [MISSING] * len(st.args.kwonlyargs), None)
                 self.functions[q] = f
                 return f
+        # the closure may have been turned into a method or a module-level function of the same name (leading underscores aside):
+        # the unit keeps its name and its contract; the moved function takes what the closure captured as parameters
+        owner = outer_qualname.rsplit(".", 1)[0]
+        cands = [f for q2, f in self.functions.items()
+                 if q2.rsplit(".", 1)[-1].lstrip("_") == name.lstrip("_") and (q2.startswith(owner + ".") or q2.rsplit(".", 1)[0] == outer.module)
+                 and f.node is not outer.node]
+        if len(cands) == 1:
+            q = f"{outer_qualname}.{name}"
+            f = FuncVal(cands[0].node, q, outer.module, getattr(cands[0], "cls", None), [], [MISSING] * len(cands[0].node.args.kwonlyargs), None)
+            self.functions[q] = f
+            return f
         raise Unsupported(f"{outer_qualname} has no nested function {name}")
 
     def mark_shared_state(self):
